@@ -627,6 +627,8 @@ def real_cases(rng, n, fail_rate):
             c["with_block"] = True
         if backend == "multiprocessing":
             c["return_as"] = "list"       # MultiprocessingBackend does not support generators (documented ValueError)
+        if c["return_as"] != "list" and not c["tfail"] and c["ifail"] is None and rng.random() < 0.35:
+            c["abandon"] = [rng.choice(["close", "drop"]), rng.choice([0, 0, 1, 2, N])]
         cases.append(c)
     return cases
 
@@ -646,6 +648,12 @@ def judge_real(c, r):
         execd = r["execs"].get(str(cn), [])
         if len(execd) != len(set(execd)):
             bad.append(("C01", "real backend %s: a task ran twice: %s" % (c["backend"], sorted(execd))))
+        if call.get("abandoned"):
+            idx = [v[1] for v in call["values"]]
+            okp = (idx == list(range(len(idx)))) if c["return_as"] == "generator" else (len(set(idx)) == len(idx) and all(0 <= i < c["N"] for i in idx))
+            if not okp or any(v[0] != cn for v in call["values"]):
+                bad.append(("C16", "real backend %s: the abandoned generator had delivered %s" % (c["backend"], call["values"])))
+            continue
         if call["raised"] is None:
             vals = call["values"]
             if c.get("init") is not None and any(len(v) > 2 and v[2] != c["init"] for v in vals):
@@ -672,7 +680,9 @@ def judge_real(c, r):
                 if name != "KeyError" or args[:1] != ["input failed"]:
                     bad.append(("C04", "real backend %s: expected KeyError('input failed', ..), got %s%s" % (c["backend"], name, args)))
             else:
-                bad.append(("C04", "real backend %s: call %d raised %s%s although nothing failed" % (c["backend"], cn, name, args)))
+                tag = "C16" if c.get("abandon") else "C04"
+                bad.append((tag, "real backend %s: call %d raised %s%s although nothing failed%s" % (
+                    c["backend"], cn, name, args, " (after the generator of call 1 was abandoned: %s)" % c["abandon"] if c.get("abandon") else "")))
     return bad
 
 
@@ -687,13 +697,15 @@ def fixed_real_cases():
     out.append(dict(base, backend="multiprocessing", n_jobs=2, init=5, with_block=True))
     out.append(dict(base, backend="multiprocessing", n_jobs=3, init=6, with_block=True, ifail=4, tfail=[], return_as="list"))
     out.append(dict(base, backend="threading", n_jobs=2, with_block=True, return_as="generator", exc="KeyboardInterrupt"))
+    for backend, nj in (("sequential", 1), ("threading", 1), ("threading", 2), ("loky", 2)):
+        for how, npull in (("close", 0), ("drop", 0), ("close", 2)):
+            out.append(dict(base, backend=backend, n_jobs=nj, tfail=[], return_as="generator", abandon=[how, npull]))
     return out
 
 
 def real_sampling(ctx, quick, prop, fail_rate):
     cases = real_cases(ctx.rng, 24 if quick else 200, fail_rate)
-    if fail_rate >= 0.5:
-        cases = fixed_real_cases() + cases
+    cases = [c for c in fixed_real_cases() if fail_rate >= 0.5 or c.get("abandon") or prop == "C01"] + cases
     chunks = [cases[i::8] for i in range(8)]
     from concurrent.futures import ThreadPoolExecutor
 
